@@ -8,7 +8,7 @@ From JR Require Import Json Handle Bytes AuthCases HttpCases Errors.
 From JRGen Require Extracted.
 
 (* type ids as in errorsfam.go: 1 plainVal 2 plainPtr 3 marshErr 4 codecErr 5 bothErr 6 failUnmarshal 7 failFrom
-   8 *errors.errorString 10 valReg *)
+   8 *errors.errorString 10 valReg 11 *fmt.wrapError (wrapping a registered error: itself unregistered) *)
 Definition tk (n : N) (p : bool) : tykey := {| ty_name := n; ty_ptr := p |}.
 Definition reg_key (kind : N) : tykey :=      (* regType(kind): what Register(c, new(...)) stores *)
   match kind with 1%N => tk 1 false | 10%N => tk 10 false | k => tk k true end.
@@ -49,6 +49,7 @@ Definition mk_err (kind : N) (msg : bytes) (n : Z) : option errval :=
   | 8%N => ev (tk 8 true) None None
   | 9%N => ev (tk 10 true) None None
   | 10%N => ev (tk 10 false) None None
+  | 11%N | 12%N => Some {| ev_ty := tk 11 true; ev_msg := (bs "ctx: " ++ msg)%list; ev_codec := None; ev_meta := None |}
   | _ => None
   end.
 
